@@ -56,6 +56,8 @@ func main() {
 	stubs := flag.String("stub", "go.opentelemetry.io/,github.com/sirupsen/logrus,github.com/formancehq/go-libs/v5/pkg/observe", "comma separated package path prefixes whose functions are no-op stubs")
 	noInit := flag.String("noinit", "runtime,internal/,syscall,os,sync,reflect,unsafe,crypto/,net,vendor/,golang.org/x/sys,golang.org/x/net,google.golang.org,github.com/jackc,github.com/uptrace,database/sql", "comma separated package path prefixes whose init is skipped")
 	tags := flag.String("tags", "", "build tags")
+	memo := flag.String("memo", "github.com/formancehq/ledger/internal/machine/script/compiler.Compile,github.com/formancehq/ledger/internal/machine/script/compiler.CompileFull,regexp.MustCompile,regexp.Compile", "comma separated pure functions memoised across paths")
+	labelsRe := flag.String("labels", "", "only check assertions whose label matches this regexp")
 	maxWitness := flag.Int("witnesses", 2, "concrete witnesses of complete paths kept per harness")
 	flag.Parse()
 
@@ -71,6 +73,11 @@ func main() {
 		}
 	}
 
+	for _, p := range strings.Split(*memo, ",") {
+		if p != "" {
+			memoFns[p] = true
+		}
+	}
 	t0 := time.Now()
 	ov := map[string][]byte{}
 	if *overlay != "" {
@@ -221,6 +228,9 @@ func main() {
 	}
 	for _, h := range hs {
 		c := &config{maxPaths: *maxPaths, maxDecisions: *maxDec, maxViol: *maxViol, maxSteps: *maxSteps, panicsAre: "violation", trace: *trace, maxWitness: *maxWitness}
+		if *labelsRe != "" {
+			c.labels = regexp.MustCompile(*labelsRe)
+		}
 		if *budget > 0 {
 			c.deadline = time.Now().Add(*budget)
 		}
